@@ -46,6 +46,17 @@ def meanings(sub):
     return out
 
 
+_CDEC = None
+
+
+def compiled_decoder():
+    global _CDEC
+    if _CDEC is None:
+        from pybufrkit.decoder import Decoder
+        _CDEC = Decoder(compiled_template_cache_max=8)
+    return _CDEC
+
+
 def struct_body(struct, env):
     name, descs, queues, free = struct
     nsub, comp = env['nsub'], env['compressed']
@@ -76,6 +87,15 @@ def struct_body(struct, env):
         if d:
             res['viol'] = d
             return res
+        if env.get('compiled'):
+            # the same links with template compilation (first decode compiles, second runs the cached template)
+            for rnd in (0, 1):
+                sc = S.impl_decode(compiled_decoder(), b)
+                dc = ('decode-raises:' + sc[1], 'raised %s: %s' % (sc[1], sc[2][:160])) if sc[0] == 'exc' else \
+                    S.compare_subsets(sc[1], subs)
+                if dc:
+                    res['viol'] = ('compiled-' + dc[0], 'with template compilation (%s run): %s' % ('first' if rnd == 0 else 'cached', dc[1]))
+                    return res
         msg = st[2]
         try:
             nj = NestedJsonRenderer().render(msg)
@@ -165,12 +185,12 @@ def plan(tier):
         ('chain2-u1', list(BM.chain2(L)), dict(nsub=1, compressed=False), 0),
         ('chain2-c2', list(BM.chain2(L)), dict(nsub=2, compressed=True), 0),
     ]
-    out.append(('chain1-u1-distinct', list(BM.chain1(L + 1)), dict(nsub=1, compressed=False, distinct=True), 0))
+    out.append(('chain1-u1-distinct', list(BM.chain1(L + 1)), dict(nsub=1, compressed=False, distinct=True, compiled=True), 0))
     out.append(('chain1-u2-diff-distinct', list(BM.chain1(1, 2)), dict(nsub=2, compressed=False, vmap=[0, 1], distinct=True), 0))
     out.append(('chain2-c2-distinct', list(BM.chain2(L)), dict(nsub=2, compressed=True, distinct=True), 0))
     w = list(BM.wrapped(BM.chain1(L), 2, True)) + list(BM.wrapped(BM.chain1(0), 2, True, delayed=True))
-    out.append(('wrapped-u1', w, dict(nsub=1, compressed=False, distinct=True), 0))
-    out.append(('wrapped-c2', w if tier == 'thorough' else w[::3], dict(nsub=2, compressed=True), 0))
+    out.append(('wrapped-u1', w, dict(nsub=1, compressed=False, distinct=True, compiled=True), 0))
+    out.append(('wrapped-c2', w if tier == 'thorough' else w[::3], dict(nsub=2, compressed=True, compiled=True), 0))
     if tier == 'thorough':
         out.append(('chain1-all-u1', list(BM.chain1(2)), dict(nsub=1, compressed=False), 2))
         out.append(('chain1-u3-diff', list(BM.chain1(0, 3)), dict(nsub=3, compressed=False, vmap=[0, 1, 2]), 0))
